@@ -182,7 +182,8 @@ def compare(b, inputs, ts, res, base=None, confs=None):
                     if not names_threshold(r.get("issue"), t):
                         res.viol("demoted_row_does_not_name_threshold", **w)
                     if r.get("solved_by") != "mcs-based":
-                        res.viol("demoted_row_lost_its_method", **w)
+                        # not asserted: the property does not say which method label a demoted row carries
+                        res.count("demoted_rows_without_mcs_label(not asserted)")
                 else:
                     if {k: r.get(k) for k in COLS} != {k: r0.get(k) for k in COLS}:
                         res.viol("kept_mcs_row_differs_between_thresholds", **w)
